@@ -48,6 +48,33 @@ MUTS2 = [
 ]
 
 
+# round 3 (and the audit fixes)
+MUTS3 = [
+ ('R1', 'C07', 'src/primitives/line/mod.rs', 'ParallelLineType::Extra => reduce,\n                },\n        );\n\n        let right_line', 'ParallelLineType::Extra => Point::zero(),\n                },\n        );\n\n        let right_line', 'break', 'Line::extents (loop + `last()` drivers): the left line of an Extra parallel is no longer shortened', 0),
+ ('R2', 'C07', 'src/primitives/common/line_join.rs', 'left: l.start,\n            right: r.start,', 'left: l.start,\n            right: l.start,', 'break', 'LineJoin::start: right corner taken from the left extent', 0),
+ ('R3', 'C17', 'src/primitives/line/thick_points.rs', 'if line_type == ParallelLineType::Extra {\n                    self.parallel_points_remaining -= 1;', 'if line_type == ParallelLineType::Normal {\n                    self.parallel_points_remaining -= 1;', 'break', 'ThickPoints::next: Normal instead of Extra parallels are shortened', 0),
+ ('R4', 'C11', 'core/src/pixelcolor/raw/load_store.rs', 'let value = if O::IS_ALTERNATE_ORDER {\n                    u16::from_be_bytes(bytes)', 'let value = if !O::IS_ALTERNATE_ORDER {\n                    u16::from_be_bytes(bytes)', 'break', 'RawU16 load (sub-slices, try_into, from_be_bytes): byte order flipped', 0),
+ ('R5', 'C11', 'core/src/pixelcolor/raw/load_store.rs', 'let bytes = self.into_inner().to_be_bytes();\n            [bytes[1], bytes[2], bytes[3]]', 'let bytes = self.into_inner().to_be_bytes();\n            [bytes[0], bytes[1], bytes[2]]', 'break', 'RawU24 store (to_be_bytes, array indexing, copy_from_slice view): wrong three bytes', 0),
+ ('R6', 'C11', 'core/src/pixelcolor/raw/load_store.rs', '.checked_mul(4)\n            .and_then(|start| buffer.get(start..))', '.checked_mul(3)\n            .and_then(|start| buffer.get(start..))', 'break', 'RawU32 load: checked_mul(4) -> checked_mul(3)', 0),
+ ('R7', 'C11', 'src/iterator/raw.rs', 'self.index = self.index.saturating_add(n);', 'self.index = self.index.saturating_add(n + 1);', 'break', 'RawDataIterator::nth (generic `R::load::<O>` as a parameter): off by one', 0),
+ ('R8', 'C09', 'src/image/image_raw.rs', 'if data.len() != expected_size {', 'if data.len() < expected_size {', 'break', 'ImageRaw::new: `!=` -> `<`', 0),
+ ('R9', 'C06', 'src/primitives/primitive_style.rs', '-self.inside_stroke_width().saturating_as::<i32>()', '-self.outside_stroke_width().saturating_as::<i32>()', 'break', 'PrimitiveStyle::fill_area (monomorphic instances): inside -> outside stroke width', 0),
+ ('R10', 'C10', 'src/framebuffer.rs', 'self.data[y * WIDTH + x] = c.into().into_inner();', 'self.data[y * HEIGHT + x] = c.into().into_inner();', 'break', 'Framebuffer<RawU8>::set_pixel (dynamic index assignment): WIDTH -> HEIGHT', 0),
+ ('R11', 'C10', 'src/framebuffer.rs', '8 - (x % pixels_per_bit + 1) * C::Raw::BITS_PER_PIXEL', '7 - (x % pixels_per_bit + 1) * C::Raw::BITS_PER_PIXEL', 'break', 'impl_bit! set_pixel (macro body): literal 8 -> 7 in the bit index', 0),
+ ('R12', 'C20', 'src/mock_display/mod.rs', 'self.pixels[x as usize + y as usize * SIZE]', 'self.pixels[y as usize + x as usize * SIZE]', 'break', 'MockDisplay::get_pixel: x and y swapped in the index', 0),
+ ('R13', 'C14', 'src/mono_font/mod.rs', 'let row = glyph_index / glyphs_per_row;', 'let row = glyph_index % glyphs_per_row;', 'break', 'MonoFont::glyph (`&dyn GlyphMapping`, char): `/` -> `%`', 0),
+ ('R14', 'C11', 'core/src/pixelcolor/raw/mod.rs', 'Self::Storage::MAX >> (Self::Storage::BITS - $bpp);', 'Self::Storage::MAX >> (Self::Storage::BITS - $bpp + 1);', 'break', 'impl_raw_data! MASK (macro body, 7 instances): shift off by one', 0),
+ ('R15', 'C11', 'core/src/pixelcolor/raw/mod.rs', 'impl_raw_data!(RawU24: u32, 24, "24 bits");', 'impl_raw_data!(RawU24: u32, 23, "24 bits");', 'break', 'an INVOCATION of impl_raw_data! changed (23 bits): the configured instance no longer is an instance of the source', 0),
+ ('R16', 'C09', 'src/image/image_raw.rs', '    (width as usize * bits_per_pixel + 7) / 8', '    #[cfg(feature = "x")]\n    let width = width + 1;\n    (width as usize * bits_per_pixel + 7) / 8', 'break', 'bytes_per_row: a `#[cfg]`-gated statement is added (audit F9: must fail closed)', 0),
+ ('T1', 'C16', 'src/primitives/rectangle/mod.rs', '.is_some_and(|bottom_right| point.x <= bottom_right.x && point.y <= bottom_right.y)', '.is_some_and(|bottom_right| point.x <= bottom_right.x && point.y < bottom_right.y)', 'break', 'the TRAIT copy `impl ContainsPoint for Rectangle` (main crate): `<=` -> `<`', 0),
+ ('T2', 'C16', 'src/primitives/rectangle/mod.rs', 'self.size.saturating_add(Size::new_equal(offset as u32 * 2))', 'self.size.saturating_add(Size::new_equal(offset as u32))', 'break', 'the TRAIT copy `impl OffsetOutline for Rectangle`: dropped `* 2`', 0),
+ ('T3', 'C16', 'src/primitives/rectangle/mod.rs', 'self.top_left += by;', 'self.top_left -= by;', 'break', 'the TRAIT copy `impl Transform for Rectangle`: translate_mut `+=` -> `-=`', 0),
+ ('T4', 'C07', 'src/primitives/line/mod.rs', 'self.start += by;\n        self.end += by;', 'self.start += by;\n        self.end -= by;', 'break', 'Line::translate_mut (`-> &mut Self`): `+=` -> `-=` on the end point', 0),
+ ('S1', 'C11', 'core/src/pixelcolor/raw/load_store.rs', None, None, 'preserve', 'RawU16 store: local `bytes` renamed', 0),
+ ('S2', 'C14', 'src/mono_font/mod.rs', None, None, 'preserve', 'MonoFont::glyph: the independent lets char_x / char_y reordered', 0),
+]
+
+
 def sh(cmd, env=None, timeout=3600):
     p = subprocess.run(cmd, shell=True, cwd=V, env=dict(os.environ, **(env or {})), stdout=subprocess.PIPE, stderr=subprocess.STDOUT, text=True, timeout=timeout)
     return p.returncode, p.stdout
@@ -59,6 +86,17 @@ def special(mid, txt):
                            'self.origin_distance - point.dot_product(self.normal_vector)\n    }\n\n    /// Checks if a point is on the given side of the line.', 1)
     if mid == 'Q1':
         return txt.replace('error_before_decrease', 'before')
+    if mid == 'S1':
+        i = txt.index('impl<O: DataOrder> LoadStore<O> for RawU16 {')
+        j = txt.index('impl<O: DataOrder> LoadStore<O> for RawU24 {')
+        k = txt.index('fn store(self', i)
+        seg = txt[k:j].replace('let bytes =', 'let encoded =').replace('copy_from_slice(&bytes)', 'copy_from_slice(&encoded)')
+        return txt[:k] + seg + txt[j:]
+    if mid == 'S2':
+        a = '        let char_x = (glyph_index - (row * glyphs_per_row)) * self.character_size.width;\n'
+        b = '        let char_y = row * self.character_size.height;\n'
+        assert a + b in txt
+        return txt.replace(a + b, b + a)
     if mid == 'M7':
         i = txt.index('pub fn next(&mut self, parameters: &BresenhamParameters) -> Point {')
         j = txt.index('if self.error > parameters.error_threshold {', i)
@@ -84,11 +122,11 @@ def first_failing_lemma(out):
 def main():
     want = sys.argv[1:]
     rows = []
-    allm = [m + (0,) for m in MUTS] + MUTS2
+    allm = [m + (0,) for m in MUTS] + MUTS2 + MUTS3
     for mid, prop, f, old, new, kind, what, occ in allm:
         if want and mid not in want:
             continue
-        if not want and mid[0] in 'NQ':
+        if not want and mid[0] in 'NQRST':
             continue
         sh('git -C /repo worktree remove --force %s; git -C /repo worktree prune' % S)
         rc, o = sh('git -C /repo worktree add --detach %s HEAD' % S)
